@@ -17,7 +17,7 @@ def check(repo: Repo, rep, tier):
     string_tokens(repo, rep)
     fmt_taint_fragment(repo, rep)
     utf8(repo, rep)
-    stale_bindings(repo, rep, None, "e.g. a copied `config` never sees the format-command read in pytest_configure, so code fragments are piped through the wrong formatter path")
+    stale_bindings(repo, rep, {"config"}, "e.g. a copied `config` never sees the format-command read in pytest_configure, so code fragments are piped through the wrong formatter path")
 
 
 def string_tokens(repo: Repo, rep):
